@@ -322,6 +322,484 @@ def run(repo: Repo, rep: Report) -> None:  # noqa: F811
         rep.ob("C15.h-pn-local-escapes-are-removed", pm, "<grammar>", "PN_LOCAL does not accept escapes", True, "nothing to unescape", node=pm.tree)
 
 
+# ====================================================================================================================
+# rules i-l: pinned from repaired defects F192-F195
+# ====================================================================================================================
+import re  # noqa: E402
+
+from vlib import h_c04 as H4  # noqa: E402
+from vlib import h_c08 as H8  # noqa: E402
+from vlib import h_c15 as H  # noqa: E402
+
+GRAPH_CLS = "rdflib.graph.Graph"
+# the pattern-matching API of a graph: each has set semantics on a single graph
+TRIPLE_API = {"triples", "triples_choices", "subjects", "predicates", "objects", "subject_objects", "subject_predicates", "predicate_objects"}
+RESTRICTORS = ("project", "remember", "forget")
+
+
+def _sparql_mods(repo: Repo) -> list:
+    ms = [m for n, m in sorted(repo.modules.items()) if n.startswith("rdflib.plugins.sparql.")]
+    if len(ms) < 8:
+        raise AnalysisError("anchor vanished: the rdflib.plugins.sparql package has %d modules" % len(ms))
+    return ms
+
+
+# ------------------------------------------------------------------------------------------------------------------ (i)
+def _restriction(fn: ast.AST, e: ast.AST) -> ast.Call | None:
+    """a `.project(..)/.remember(..)/.forget(..)` in the expressions the value of e is computed from (def-use closure in fn)
+    whose own argument is computed from a part's `_vars` annotation or is handed in by the caller"""
+    params = set(H.params_of(fn)) if isinstance(fn, (ast.FunctionDef, ast.AsyncFunctionDef)) else set()
+    for x in H4.closure_nodes(fn, e):
+        if isinstance(x, ast.Call) and isinstance(x.func, ast.Attribute) and x.func.attr in RESTRICTORS and (x.args or x.keywords):
+            for s_ in list(x.args) + [k.value for k in x.keywords]:
+                if any(isinstance(y, ast.Attribute) and y.attr == "_vars" for y in H4.closure_nodes(fn, s_)):
+                    return x
+                # a helper that is handed the set of variables by its caller
+                if isinstance(s_, ast.Name) and s_.id in params and not H.binders_of(fn, s_.id) and not H4.local_defs(fn, s_.id):
+                    return x
+    return None
+
+
+def _side_origin(fn: ast.FunctionDef, e: ast.AST, depth: int = 0) -> tuple[str, object]:
+    """where one operand of a domain test comes from: ('restricted', call) | ('param', index) | ('unknown', None)"""
+    r = _restriction(fn, e)
+    if r is not None:
+        return "restricted", r
+    if isinstance(e, ast.Name) and depth < 4:
+        ps = H.params_of(fn)
+        if e.id in ps and not H.binders_of(fn, e.id) and not H4.local_defs(fn, e.id):
+            return "param", ps.index(e.id)
+        for _b, it in H.binders_of(fn, e.id):
+            o = _side_origin(fn, it, depth + 1)
+            if o[0] != "unknown":
+                return o
+        for v in H4.local_defs(fn, e.id):
+            for nm in [x for x in ast.walk(v) if isinstance(x, ast.Name) and isinstance(x.ctx, ast.Load)]:
+                if nm.id != e.id:
+                    o = _side_origin(fn, nm, depth + 1)
+                    if o[0] == "param":
+                        return o
+    return "unknown", None
+
+
+def _arg_for(call: ast.Call, fn: ast.FunctionDef, idx: int) -> ast.AST | None:
+    ps = H.params_of(fn)
+    if idx < len(call.args) and not any(isinstance(a, ast.Starred) for a in call.args[: idx + 1]):
+        return call.args[idx]
+    for k in call.keywords:
+        if k.arg == ps[idx]:
+            return k.value
+    return None
+
+
+def rule_i(repo: Repo, rep: Report) -> None:
+    RULE = "C15.i-domain-test-on-the-operands-own-variables"
+    rep.rule(RULE,
+             "a solution produced by evalPart(ctx, P) carries, besides the variables of P, every binding that was made outside of P (initBindings, the left side of a "
+             "lazy join / OPTIONAL pushed into ctx). `compatible()` is insensitive to that, `disjointDomain()` is not: wherever the evaluator asks whether two solutions "
+             "have a variable in common, at least one of the two must first have been restricted to its operand's own variables - `.project/.remember/.forget` with a set "
+             "computed from the part's `_vars` - at the test itself or at every call of the helper that performs it. Otherwise `SELECT * { ?s :p ?o MINUS { ?a :q ?b } }` "
+             "evaluated with initBindings {?z: 1} (or inside `{ ?z :r ?w } OPTIONAL/. { ... MINUS ... }`) removes every left-hand row: ?z is `shared`", floor=1)
+    sp = repo.mod("rdflib.plugins.sparql.sparql")
+    if not sp.has("FrozenDict.disjointDomain"):
+        raise AnalysisError("anchor vanished: FrozenDict.disjointDomain (the domain-sensitive test on solutions)")
+    mods = _sparql_mods(repo)
+    n_sinks = 0
+
+    def call_sites(tmod, tfn: ast.FunctionDef):
+        for m in mods:
+            for q, f in m.functions():
+                for c in own_nodes(f):
+                    if isinstance(c, ast.Call) and isinstance(c.func, ast.Name) and c.func.id == tfn.name:
+                        r = H8.resolve_function(repo, m, c.func.id)
+                        if r is not None and r[1] is tfn:
+                            yield m, q, f, c
+
+    def at_call_sites(hmod, hfn: ast.FunctionDef, idxs: list[int], what: str, depth: int) -> None:
+        sites = list(call_sites(hmod, hfn))
+        if not sites:
+            raise AnalysisError("%s: the helper %s that performs it has no call site in the SPARQL package" % (what, hfn.name))
+        for m, q, f, c in sites:
+            rep.analysed("%s:%s" % (m.rel, q))
+            g = CFG(f)
+            restricted = None
+            passthrough: list[int] = []
+            for i in idxs:
+                a = _arg_for(c, hfn, i)
+                if a is None:
+                    raise AnalysisError("%s: cannot match argument %d of the call %s in %s" % (RULE, i, norm(c)[:60], q))
+                cands: list[ast.AST] = [a]
+                if isinstance(a, ast.Name):
+                    vals = H4.reaching_values(m, f, g, c, a.id)
+                    cands = [H4.bound_value(st, a.id) or st for st in vals if st is not None]
+                    if any(st is None for st in vals) and a.id in H.params_of(f):
+                        passthrough.append(H.params_of(f).index(a.id))
+                for v in cands:
+                    r = _restriction(f, v) if not isinstance(v, ast.stmt) else None
+                    if r is not None:
+                        restricted = r
+            if restricted is not None:
+                rep.ob(RULE, m, q, c, True, "%s: an operand is restricted first (%s)" % (what, norm(restricted)[:60]), node=c)
+            elif passthrough and len(passthrough) == len(idxs) and depth < 3:
+                at_call_sites(m, f, passthrough, what, depth + 1)
+            else:
+                rep.ob(RULE, m, q, c, False,
+                       "%s, and here it receives the solutions as evalPart() produced them: they still carry every binding made outside the operand "
+                       "(initBindings, the left side of a lazy join / OPTIONAL), so two solutions whose operands share no variable are never domain-disjoint - "
+                       "`{ ?s :p ?o MINUS { ?a :q ?b } }` with initBindings {?z: 1} loses all its rows" % what, node=c)
+
+    for m in mods:
+        for q, f in m.functions():
+            for c in own_nodes(f):
+                if not (isinstance(c, ast.Call) and isinstance(c.func, ast.Attribute) and c.func.attr == "disjointDomain" and len(c.args) == 1):
+                    continue
+                if m is sp and q.startswith("FrozenDict."):
+                    continue
+                n_sinks += 1
+                rep.analysed("%s:%s" % (m.rel, q))
+                what = "%s tests `%s`" % (q, norm(c)[:50])
+                origins = [_side_origin(f, c.func.value), _side_origin(f, c.args[0])]
+                if any(o[0] == "restricted" for o in origins):
+                    r = [o[1] for o in origins if o[0] == "restricted"][0]
+                    rep.ob(RULE, m, q, c, True, "an operand is restricted at the test (%s)" % norm(r)[:60], node=c)  # type: ignore[arg-type]
+                elif all(o[0] == "param" for o in origins):
+                    at_call_sites(m, f, [o[1] for o in origins], what, 0)  # type: ignore[misc]
+                else:
+                    raise AnalysisError("%s: cannot tell where the operands of %s in %s come from" % (RULE, norm(c)[:50], q))
+    if n_sinks == 0:
+        raise AnalysisError("anchor vanished: no use of disjointDomain() in the SPARQL evaluator (how is MINUS decided?)")
+
+
+# ------------------------------------------------------------------------------------------------------------------ (j)
+_ALPHA = "abcdefghijklmnopqrstuvwxyzABCDEFGHIJKLMNOPQRSTUVWXYZ"
+_SCHEME_CH = _ALPHA + "0123456789+-."
+
+
+def _scheme_probe(pat, method: str) -> str | None:
+    """None when pat.<method> recognises exactly `a string that starts with an RFC 3986 scheme and a colon`; else a counterexample"""
+    fn = getattr(pat, method)
+    for c in _ALPHA:
+        if not fn(c + ":x"):
+            return "does not accept %r" % (c + ":x")
+    for c in _SCHEME_CH:
+        if not fn("a" + c + ":x"):
+            return "does not accept %r" % ("a" + c + ":x")
+    for s_ in ("http://e/", "urn:x", "mailto:a@b"):
+        if not fn(s_):
+            return "does not accept %r" % s_
+    for s_ in ("", ":a", "#a:b", "./a:b", "/a:b", "a/b:c", "?a:b", "../a:b", "abc", "a", "#frag"):
+        if fn(s_):
+            return "takes %r for absolute" % s_
+    others = [chr(i) for i in range(32, 127)] + ["é", "д", "\t", "\n"]
+    for c in others:
+        if c not in _ALPHA and fn(c + "a:x"):
+            return "takes %r for absolute" % (c + "a:x")
+        if c not in _SCHEME_CH and c != ":" and fn("a" + c + "b:x"):
+            return "takes %r for absolute" % ("a" + c + "b:x")
+    return None
+
+
+def rule_j(repo: Repo, rep: Report) -> None:
+    RULE = "C15.j-relative-iri-decided-by-scheme"
+    rep.rule(RULE,
+             "wherever the SPARQL package resolves an IRI reference against BASE (`URIRef(x, base=...)`, `urljoin`), every test on the text of x that guards the "
+             "resolution recognises an absolute IRI by its scheme - a regular expression matched at the start of x that accepts exactly ALPHA *( ALPHA / DIGIT / + / - / . ) "
+             "':' (RFC 3986, 3.1; the expression is taken from the source and probed over all of ASCII) - and never by a substring test such as `':' in x`: a relative "
+             "reference may contain ':' in its fragment, query or any but the first path segment, so with `BASE <http://e/>` the spellings <#a:b>, <./a:b>, </a:b> and "
+             "<http://e/#a:b> ... must denote the same IRIs and match the same triples", floor=1)
+    n = 0
+    for m in _sparql_mods(repo):
+        for q, f in m.functions():
+            for c in own_nodes(f):
+                if not isinstance(c, ast.Call):
+                    continue
+                callee = norm(c.func).split(".")[-1]
+                ref = None
+                if callee == "URIRef" and c.args and (len(c.args) >= 2 or any(k.arg == "base" for k in c.keywords)):
+                    ref = c.args[0]
+                elif callee == "urljoin" and len(c.args) >= 2:
+                    ref = c.args[1]
+                if ref is None:
+                    continue
+                n += 1
+                rep.analysed("%s:%s" % (m.rel, q))
+                verdicts = []
+                for t in _guards(m, f, c):
+                    verdicts += _text_tests(repo, m, t, norm(ref), 0)
+                if not verdicts:
+                    rep.ob(RULE, m, q, c, True, "resolved whatever the text of the reference is (urljoin leaves an IRI with a scheme alone)", node=c)
+                for atom, bad in verdicts:
+                    rep.ob(RULE, m, q, atom, bad is None,
+                           "absolute = starts with a scheme" if bad is None else
+                           "whether %s is resolved against BASE is decided by `%s`, which %s: with `BASE <http://e/>` the reference <#a:b> (or <./a:b>, </a:b>) stays unresolved and "
+                           "no longer equals <http://e/#a:b>" % (norm(ref), norm(atom)[:60], bad), node=atom)
+    if n == 0:
+        raise AnalysisError("anchor vanished: no resolution of an IRI reference against a base in the SPARQL package")
+
+
+def _guards(mod, f: ast.AST, node: ast.AST) -> list[ast.expr]:
+    """tests that decide whether `node` is reached: those of the enclosing if / elif / conditional expressions (either branch) and of
+    earlier early-exit ifs of the enclosing blocks"""
+    out: list[ast.expr] = []
+    child = node
+    for p in mod.parents(node):
+        if isinstance(p, (ast.If, ast.IfExp, ast.While)) and child is not p.test:
+            out.append(p.test)
+        if isinstance(p, ast.BoolOp) and child in p.values:
+            out += [v for v in p.values[: p.values.index(child)]]
+        for field in ("body", "orelse", "finalbody"):
+            blk = getattr(p, field, None)
+            if isinstance(blk, list) and any(child is s_ for s_ in blk):
+                for s_ in blk:
+                    if s_ is child:
+                        break
+                    if isinstance(s_, ast.If) and s_.body and isinstance(s_.body[-1], (ast.Return, ast.Raise, ast.Continue, ast.Break)):
+                        out.append(s_.test)
+        if p is f:
+            break
+        child = p
+    return out
+
+
+def _text_tests(repo: Repo, mod, test: ast.AST, x: str, depth: int) -> list[tuple[ast.AST, str | None]]:
+    """(atom, None | what is wrong with it) for every atomic test in `test` that inspects the text of the expression whose normal form is x"""
+    if isinstance(test, ast.BoolOp):
+        return [r for v in test.values for r in _text_tests(repo, mod, v, x, depth)]
+    if isinstance(test, ast.UnaryOp) and isinstance(test.op, ast.Not):
+        return _text_tests(repo, mod, test.operand, x, depth)
+    if isinstance(test, ast.NamedExpr):
+        return _text_tests(repo, mod, test.value, x, depth)
+    is_x = lambda e: norm(e) == x  # noqa: E731
+    if not any(is_x(s_) for s_ in ast.walk(test)):
+        return []
+    if is_x(test):
+        return []  # presence / emptiness
+    if isinstance(test, ast.Compare):
+        if len(test.ops) == 1 and isinstance(test.ops[0], (ast.In, ast.NotIn)) and is_x(test.comparators[0]):
+            return [(test, "is a substring test (true for a ':' anywhere in the reference)")]
+        if all(isinstance(o, (ast.Eq, ast.NotEq, ast.Is, ast.IsNot)) for o in test.ops) and all(is_x(e) or not any(is_x(s_) for s_ in ast.walk(e)) for e in [test.left] + test.comparators):
+            return []  # compared as a whole
+        if all(not any(is_x(s_) for s_ in ast.walk(e)) or (isinstance(e, ast.Attribute) and is_x(e.value)) for e in [test.left] + test.comparators):
+            return []  # a field of a structured value (x.name == ...)
+        inner = [r for e in [test.left] + test.comparators for r in _text_tests(repo, mod, e, x, depth)]
+        if inner:
+            return inner
+        raise AnalysisError("C15.j: unmodelled test on an IRI reference: %s" % norm(test)[:80])
+    if isinstance(test, ast.Call):
+        fn = norm(test.func)
+        if fn == "isinstance" or fn == "len" or fn == "bool":
+            return []
+        if isinstance(test.func, ast.Attribute) and is_x(test.func.value):
+            return [(test, "is a string-method test, not the scheme grammar")]
+        if isinstance(test.func, ast.Attribute) and test.func.attr in ("match", "search", "fullmatch") and any(is_x(a) for a in test.args):
+            if fn in ("re.match", "re.search", "re.fullmatch"):
+                texts = H.fold_str(mod, test.args[0])
+                pats = None if texts is None else [re.compile(t_, H._flags_of(test, 2)) for t_ in sorted(texts)]
+            else:
+                pats = H.compiled_patterns(mod, test.func.value)
+            if not pats:
+                raise AnalysisError("C15.j: the regular expression of `%s` is not a constant of the module" % norm(test)[:60])
+            bad = None
+            for p in pats:
+                bad = bad or _scheme_probe(p, test.func.attr)
+            return [(test, None if bad is None else "is not `starts with a scheme` (the expression %s)" % bad)]
+        if isinstance(test.func, ast.Name) and depth < 2:
+            r = H8.resolve_function(repo, mod, test.func.id)
+            pos = [i for i, a in enumerate(test.args) if is_x(a)]
+            if r is not None and pos:
+                hm, hf = r
+                ps = H.params_of(hf)
+                if pos[0] < len(ps):
+                    out: list = []
+                    for s_ in own_nodes(hf):
+                        if isinstance(s_, ast.Return) and s_.value is not None:
+                            out += _text_tests(repo, hm, s_.value, ps[pos[0]], depth + 1)
+                        elif isinstance(s_, (ast.If, ast.IfExp, ast.While)):
+                            out += _text_tests(repo, hm, s_.test, ps[pos[0]], depth + 1)
+                    return out
+        raise AnalysisError("C15.j: unmodelled test on an IRI reference: %s" % norm(test)[:80])
+    if isinstance(test, ast.Attribute) and is_x(test.value):
+        return []
+    if isinstance(test, ast.Subscript):
+        return [(test, "looks at a slice of the reference, not at its scheme")]
+    raise AnalysisError("C15.j: unmodelled test on an IRI reference: %s" % norm(test)[:80])
+
+
+# ------------------------------------------------------------------------------------------------------------------ (k)
+def rule_k(repo: Repo, rep: Report) -> None:
+    RULE = "C15.k-aggregate-yields-a-shared-triple-once"
+    rep.rule(RULE,
+             "a graph is a SET of triples for every store configuration. A method that answers a pattern by asking each graph of a collection of graphs in turn "
+             "(`for g in <graphs>: for t in g.triples(..)/triples_choices(..)/...: yield t`) yields a triple that several of those graphs hold once per graph unless "
+             "either the yielded row names the member graph (quads) or the yield is guarded by a `not in <seen>` test on exactly the yielded value, with <seen> a set "
+             "created before the loop over the graphs and filled with that value; the same in comprehension form must be collected into a set. Otherwise "
+             "`SELECT ?s { ?s ?p ?o }` over ReadOnlyGraphAggregate([g1, g2]) with one triple in both graphs has two solutions where the ConjunctiveGraph / Dataset "
+             "union of the same data has one", floor=2)
+    typed = repo.typed
+
+    def graphs_collection(modname: str, e: ast.AST) -> bool:
+        tf = typed.type_of(modname, e)
+        if tf is None:
+            return False
+        items = H.collection_item_classes(tf.text)
+        return bool(items) and all(typed.is_subclass(i, GRAPH_CLS) for i in items)
+
+    def fans_out(f: ast.AST, e: ast.AST, g: str) -> ast.Call | None:
+        for x in H4.closure_nodes(f, e, depth=2):
+            if isinstance(x, ast.Call) and isinstance(x.func, ast.Attribute) and x.func.attr in TRIPLE_API and isinstance(x.func.value, ast.Name) and x.func.value.id == g:
+                return x
+        return None
+
+    def set_bound_outside(f: ast.AST, name: str, loop: ast.AST) -> bool:
+        inside = {id(x) for x in ast.walk(loop)}
+        defs = [n for n in own_nodes(f) if isinstance(n, (ast.Assign, ast.AnnAssign)) and H4.bound_value(n, name) is not None]
+        if not defs or any(id(d) in inside for d in defs):
+            return False
+        for d in defs:
+            v = H4.bound_value(d, name)
+            if not (isinstance(v, (ast.Set, ast.SetComp, ast.Dict)) or isinstance(v, ast.Call) and norm(v.func) in ("set", "dict", "OrderedDict", "collections.OrderedDict")):
+                return False
+        return True
+
+    def seen_guard(mod, f: ast.AST, outer: ast.For, inner: ast.For, y: ast.AST, val: ast.AST) -> str | None:
+        """None if the yield is guarded as the rule demands, else what is missing"""
+        tests: list[tuple[ast.Compare, bool]] = []
+        child: ast.AST = y
+        for p in mod.parents(y):
+            if isinstance(p, ast.If) and child is not p.test and any(child is s_ for s_ in p.body):
+                tests.append((p.test, True))  # type: ignore[arg-type]
+            blk = [getattr(p, fld) for fld in ("body", "orelse") if isinstance(getattr(p, fld, None), list) and any(child is s_ for s_ in getattr(p, fld))]
+            for b in blk:
+                for s_ in b:
+                    if s_ is child:
+                        break
+                    if isinstance(s_, ast.If) and s_.body and isinstance(s_.body[-1], ast.Continue) and not s_.orelse:
+                        tests.append((s_.test, False))  # type: ignore[arg-type]
+            if p is inner:
+                break
+            child = p
+        for t, positive in tests:
+            if isinstance(t, ast.UnaryOp) and isinstance(t.op, ast.Not):
+                t, positive = t.operand, not positive  # type: ignore[assignment]
+            if not (isinstance(t, ast.Compare) and len(t.ops) == 1 and isinstance(t.comparators[0], ast.Name)):
+                continue
+            if not (isinstance(t.ops[0], ast.NotIn) and positive or isinstance(t.ops[0], ast.In) and not positive):
+                continue
+            seen = t.comparators[0].id
+            if norm(t.left) != norm(val):
+                return "the membership test is on %s, not on the yielded %s" % (norm(t.left), norm(val))
+            if not set_bound_outside(f, seen, outer):
+                return "the set of rows already yielded is (re)created inside the loop over the member graphs"
+            adds = [c for c in H.walk_stmts(inner.body) if isinstance(c, ast.Call) and isinstance(c.func, ast.Attribute) and c.func.attr == "add"
+                    and isinstance(c.func.value, ast.Name) and c.func.value.id == seen and c.args and norm(c.args[0]) == norm(val)]
+            adds += [s_ for s_ in H.walk_stmts(inner.body) if isinstance(s_, ast.Assign) and isinstance(s_.targets[0], ast.Subscript)
+                     and norm(s_.targets[0].value) == seen and norm(s_.targets[0].slice) == norm(val)]
+            if not adds:
+                return "the yielded row is never added to the set it is looked up in"
+            return None
+        return "nothing prevents a second member graph holding the same triple from yielding it again"
+
+    for name, mod in sorted(repo.modules.items()):
+        for q, f in mod.functions():
+            for n in own_nodes(f):
+                # statement form
+                if isinstance(n, (ast.For, ast.AsyncFor)) and isinstance(n.target, ast.Name) and graphs_collection(name, n.iter):
+                    g = n.target.id
+                    for inner in H.walk_stmts(n.body):
+                        if isinstance(inner, (ast.For, ast.AsyncFor)):
+                            call = fans_out(f, inner.iter, g)
+                            if call is None:
+                                continue
+                            rep.analysed("%s:%s" % (mod.rel, q))
+                            for y in H.walk_stmts(inner.body):
+                                if isinstance(y, ast.YieldFrom):
+                                    rep.ob(RULE, mod, q, y, False, "re-yields an iterable per row per member graph", node=y)
+                                if not (isinstance(y, ast.Yield) and y.value is not None):
+                                    continue
+                                if H.mentions(y.value, g):
+                                    rep.ob(RULE, mod, q, y, True, "every row names the member graph it comes from", node=y)
+                                    continue
+                                ystmt = H4.enclosing_stmt(mod, y)
+                                miss = seen_guard(mod, f, n, inner, ystmt, y.value)
+                                rep.ob(RULE, mod, q, "for .. in %s: for .. in %s: %s" % (norm(n.iter), norm(call)[:50], norm(y)), miss is None,
+                                       "each row once over all member graphs" if miss is None else
+                                       "%s: a triple held by two of %s is yielded twice, so every pattern matching it has two solutions where the union of the same data in one "
+                                       "store has one" % (miss, norm(n.iter)), node=y)
+                        elif isinstance(inner, ast.YieldFrom) and fans_out(f, inner.value, g) is not None and not any(
+                                isinstance(p, (ast.For, ast.AsyncFor)) and p is not n and fans_out(f, p.iter, g) is not None for p in mod.parents(inner)):
+                            rep.analysed("%s:%s" % (mod.rel, q))
+                            rep.ob(RULE, mod, q, inner, False,
+                                   "the matches of each of %s are passed on as they come: a triple held by two member graphs is yielded twice" % norm(n.iter), node=inner)
+                # comprehension form
+                if isinstance(n, (ast.GeneratorExp, ast.ListComp, ast.SetComp)):
+                    for i, gen in enumerate(n.generators):
+                        if not (isinstance(gen.target, ast.Name) and graphs_collection(name, gen.iter)):
+                            continue
+                        g = gen.target.id
+                        later = [fans_out(f, g2.iter, g) for g2 in n.generators[i + 1:]] + [fans_out(f, n.elt, g) if not n.generators[i + 1:] else None]
+                        if not any(x is not None for x in later):
+                            continue
+                        rep.analysed("%s:%s" % (mod.rel, q))
+                        par = mod.parent.get(id(n))
+                        collected = isinstance(n, ast.SetComp) or isinstance(par, ast.Call) and norm(par.func) in ("set", "frozenset") and par.args and par.args[0] is n
+                        named = bool(n.generators[i + 1:]) and H.mentions(n.elt, g)
+                        rep.ob(RULE, mod, q, n, collected or named,
+                               "collected into a set" if collected else "every row names the member graph" if named else
+                               "the matches of each of %s are chained as they come: a triple held by two member graphs appears twice" % norm(gen.iter), node=n)
+
+
+# ------------------------------------------------------------------------------------------------------------------ (l)
+def rule_l(repo: Repo, rep: Report) -> None:
+    RULE = "C15.l-made-up-variables-cannot-be-written"
+    rep.rule(RULE,
+             "a variable that the SPARQL package makes up itself - `Variable(<text built from a literal>)`, e.g. the result variable of the n-th aggregate - has a name that "
+             "no query can contain: the literal part of the name has a character that the grammar's VARNAME expression (taken from parser.py) does not accept. Otherwise the "
+             "answer depends on how the user names variables: in `SELECT ?__agg_1__ (COUNT(?x) AS ?c) { ?__agg_1__ :p ?x } GROUP BY ?__agg_1__` the query's own variable and "
+             "the internal result of COUNT are one variable, and consistently renaming it changes the answer", floor=1)
+    pm = repo.mod("rdflib.plugins.sparql.parser")
+    pats = H.compiled_patterns(pm, ast.Name(id="VARNAME", ctx=ast.Load()))
+    if not pats:
+        raise AnalysisError("anchor vanished: the VARNAME regular expression of the SPARQL grammar is not a foldable constant of parser.py")
+    if not all(p.fullmatch("x") and p.fullmatch("_agg_1_") and not p.fullmatch("a b") for p in pats):
+        raise AnalysisError("the VARNAME expression folded from parser.py does not behave like a variable name grammar")
+
+    def writable(ch: str) -> bool:
+        return any(p.fullmatch("a" + ch) for p in pats)
+
+    for m in _sparql_mods(repo):
+        for q, f in m.functions():
+            for c in own_nodes(f):
+                if not (isinstance(c, ast.Call) and norm(c.func).split(".")[-1] == "Variable" and len(c.args) == 1 and not c.keywords):
+                    continue
+                consts = H.template_constants(f, c.args[0])
+                if not consts:
+                    continue  # the name is data (from the query, the caller, a remote result)
+                rep.analysed("%s:%s" % (m.rel, q))
+                odd = sorted({ch for t in consts for ch in t if not writable(ch)})
+                rep.ob(RULE, m, q, c, bool(odd),
+                       "cannot be written in a query (%s)" % " ".join(repr(o) for o in odd) if odd else
+                       "the made-up name %s is also a legal variable name of a query: a query that uses ?%s for something else shares it with this internal variable, so the "
+                       "answer changes when the user's variable is renamed" % (norm(c.args[0])[:40], "".join(consts)[:30]), node=c)
+
+
+_run_base2 = run
+
+
+def run(repo: Repo, rep: Report) -> None:  # noqa: F811
+    _run_base2(repo, rep)
+    rep.extra["explanation"] = rep.extra.get("explanation", "") + (
+        " (i) a domain-sensitive test on solutions (disjointDomain, i.e. MINUS) sees an operand restricted to its own `_vars`, not the bindings pushed in from outside; "
+        "(j) relative IRI references are recognised by the absence of a scheme (the regular expression is probed), never by a ':' substring test; "
+        "(k) a fan-out over a collection of member graphs yields a shared triple once (seen-set created before the loop) or names the member graph; "
+        "(l) variables the translator makes up have names outside the grammar's VARNAME language."
+    )
+    rule_i(repo, rep)
+    rule_j(repo, rep)
+    rule_k(repo, rep)
+    rule_l(repo, rep)
+
+
+
 _run_before_borrow = run
 
 
